@@ -62,11 +62,12 @@ func (c *C16Bad) Edit(x *rux.Context) string     { return "" }
 func (c *C16Bad) Delete(x *rux.Context)          { c.rec.hit(x, "Delete") }
 
 type c16Case struct {
-	Mask  int    `json:"action_mask"`
-	Uses  bool   `json:"uses"`
-	Base  string `json:"base"`
-	Group bool   `json:"in_group"`
-	Kind  string `json:"kind"` // subset | bad
+	Thorough bool   `json:"thorough,omitempty"`
+	Mask     int    `json:"action_mask"`
+	Uses     bool   `json:"uses"`
+	Base     string `json:"base"`
+	Group    bool   `json:"in_group"`
+	Kind     string `json:"kind"` // subset | bad
 }
 
 func c16Gen(tier string, emit func(c16Case)) {
@@ -77,7 +78,7 @@ func c16Gen(tier string, emit func(c16Case)) {
 					if tier == "quick" && (mask+bi+b2i(grp)+b2i(uses))%2 == 1 {
 						continue
 					}
-					emit(c16Case{Kind: "subset", Mask: mask, Uses: uses, Base: base, Group: grp})
+					emit(c16Case{Kind: "subset", Mask: mask, Uses: uses, Base: base, Group: grp, Thorough: tier == "thorough"})
 				}
 			}
 		}
@@ -158,7 +159,7 @@ func c16Run(c c16Case, st *fw.Stats) []fw.Viol {
 	}
 	// the orders of registration to cover: every permutation of the implemented actions (k <= 4), else all rotations of two base orders
 	var orders [][]string
-	if len(impl) <= 4 {
+	if len(impl) <= 4 || (c.Thorough && len(impl) <= 6 && c.Base == "/" && !c.Group) {
 		orders = permutations(impl)
 	} else {
 		rev := append([]string(nil), impl...)
@@ -373,7 +374,7 @@ var c16Spec = fw.Spec[c16Case]{
 	Workers: 1,
 	// the only nondeterminism is Go's map iteration order inside Resource (code under test): a confirmation replay may be retried
 	ReplayAttempts: 40,
-	Rule: "complete enumeration: all 128 subsets of the seven actions as controller method sets (generated types) x with/without Uses() (distinct middleware for every action, implemented or not) x base in {/, /api/, \"\"} x inside/outside a group; registration order inside Resource is Go map order: it is DRIVEN through the insertion order of the exported rux.RESTFulActions and OBSERVED from rux's own debug print, and registration is repeated until every permutation of the implemented actions (k<=4; all rotations of two base orders for k>4) has been observed; " +
+	Rule: "complete enumeration: all 128 subsets of the seven actions as controller method sets (generated types) x with/without Uses() (distinct middleware for every action, implemented or not) x base in {/, /api/, \"\"} x inside/outside a group; registration order inside Resource is Go map order: it is DRIVEN through the insertion order of the exported rux.RESTFulActions and OBSERVED from rux's own debug print, and registration is repeated until every permutation of the implemented actions (k<=4, thorough k<=6 on the plain base; all rotations of two base orders beyond) has been observed; " +
 		"per observed order: Routes()/NamedRoutes() equal the documented table exactly, all 9 methods x 8 probe paths dispatch as the reference resolver says over that table (create never served by show, nothing else reachable), per-action middleware runs only for its action; non-pointer / non-struct / wrong-shaped controllers; non-trivial = a distinct (subset, order) registration",
 	Assume: []string{"runs single-threaded: RESTFulActions, the debug switch and the colour output are process-global", "Go's small-map iteration starts at a random offset of the insertion order; an order not seen within 400 draws is reported as a cap, never as a violation"},
 	Bounds: func(tier string) map[string]any {
